@@ -97,8 +97,9 @@ func runC05(c *Cfg) {
 	nb := c.Pick(300, 5000)
 	parallel(c, nb, func(i int) {
 		rg := c.Rng("c05", i)
-		base := scen.GenFlowScenario(rg, scen.GenOpts{MaxNodes: 8, MaxActions: 4, MaxDepth: 4, Failures: true, MaxVisits: 3})
+		base := scen.GenFlowScenario(rg, scen.GenOpts{MaxNodes: 8, MaxActions: 4, MaxDepth: 4, Failures: true, MaxVisits: 3, Batch: true})
 		base.Runs = 1
+		base.Rewire = nil
 		if i%6 == 0 {
 			base = &scen.Scenario{Nodes: []scen.NodeSpec{scen.GenNode(rg, scen.GenOpts{Failures: true, MaxVisits: 1}, 2)}, Root: 0, Runs: 1}
 		}
